@@ -27,16 +27,18 @@ RULE = ("E1: all histories over {acquire (hold | release inside the grant callba
         "f raises | f returns an unfired Deferred), fire f's Deferred ok/fail, cancel a run Deferred (pending or "
         "waiting on f's Deferred)} for DeferredLock and DeferredSemaphore(1..3) to depth 10 (quick) / 11 (thorough) "
         "with at most 4 (quick) / 5 (thorough) live requests, pruned by hashing (model state, real waiting length, locked/tokens); plus "
-        "random histories of 2000 steps with up to 8 live requests.  A case is one history (primitive, action "
+        "random histories of 2000 steps with up to 8 live requests, and biased grow/churn/drain histories of 1500 steps "
+        "with up to 40 live requests (pending queues of 10..40, limits up to 8, cancellations anywhere in the queue).  A case is one history (primitive, action "
         "list); non-trivial = at least two actions.")
 ASSUMPTIONS = ["trusted base: the 50-line reference model in this module",
                "release() is observed by subclassing the primitive and overriding the public release()",
                "the exhaustive part bounds the number of simultaneously live requests (4 quick / 5 thorough); "
-               "longer queues are reached only by the random histories (up to 8 live requests)"]
+               "longer queues are reached only by the random histories (up to 40 live requests)"]
 SHARDS = {"quick": 4, "thorough": 16}
 FLOORS = {"step_comparisons": 5000, "grants": 2000, "queued_then_granted": 300, "cancelled_pending": 200,
           "cancel_of_granted": 100, "run_releases": 500, "run_cancel_reached_function_deferred": 50,
-          "reentrant_ops": 200, "no_wait_checks": 5000}
+          "reentrant_ops": 200, "no_wait_checks": 5000, "steps_with_more_than_5_pending": 3000,
+          "grants_out_of_a_queue_longer_than_5": 500, "cancellations_deep_in_a_long_queue": 300}
 READY = True
 
 CONFIGS = [("lock", 1), ("sem", 1), ("sem", 2), ("sem", 3)]
@@ -316,6 +318,11 @@ class World:
         queued_before = list(self.m_queue)
         if a[0] == "cancel":
             ctx.count("cancelled_pending" if ("a", a[1]) in self.m_queue else "cancel_of_granted")
+        if len(queued_before) > 5:
+            ctx.count("steps_with_more_than_5_pending")
+            if a[0] in ("cancel", "cancelrun") and (("a" if a[0] == "cancel" else "r"), a[1]) in queued_before[3:]:
+                ctx.count("cancellations_deep_in_a_long_queue")
+            ctx.maxi("pending_queue_length", len(queued_before))
         self.m_apply(a)
         self.r_apply(a)
         if self.dead:
@@ -338,6 +345,8 @@ class World:
                 ctx.count("grants")
                 if (("a" if e[0] == "grant" else "r"), e[1]) in queued_before:
                     ctx.count("queued_then_granted")
+                    if len(queued_before) > 5:
+                        ctx.count("grants_out_of_a_queue_longer_than_5")
         self.ptr = len(self.log)
         # model-independent: a pending request implies no free capacity
         ctx.count("no_wait_checks")
@@ -408,6 +417,25 @@ def run(ctx):
             ctx.count("walk_steps", len(hist))
 
         explore.random_walks(ctx, lambda: World(ctx, prim, limit, cap=5 + i % 4), [i], 2000, rng_key="walk", on_end=on_end)
+    # long queues: biased walks that grow the pending queue to 10..40 requests, churn (cancellations anywhere in the
+    # queue, releases, run results) and drain it again; limits up to 8
+    for i in ctx.cases(48, 1200):
+        rng = ctx.case_rng("longq", i)
+        prim, limit = (CONFIGS + [("sem", 5), ("sem", 8)])[i % 6]
+        w = World(ctx, prim, limit, cap=rng.choice((12, 20, 40)))
+        for step in range(1500):
+            acts = w.actions()
+            if not acts:
+                break
+            create = [a for a in acts if a[0] in ("acq", "run")]
+            other = [a for a in acts if a[0] not in ("acq", "run")]
+            phase = (step // 150) % 3            # grow / churn / drain
+            pc = (0.8, 0.45, 0.15)[phase]
+            pool = create if (create and (not other or rng.random() < pc)) else other
+            w.apply(rng.choice(pool))
+        ctx.evaluated()
+        ctx.distinct(("longq", prim, limit, tuple(w.hist)))
+        ctx.count("long_queue_walk_steps", len(w.hist))
 
 
 def replay(ctx, w):
